@@ -154,3 +154,10 @@ Proof.
 Qed.
 
 End Gen.
+
+Theorem check_sound_crc32 c : C02_check crc32 c (case_model crc32 sha1_bytes c) = true.
+Proof. apply check_sound. exact crc32_u32. Qed.
+
+Theorem zero_digest_witness : exists data pl,
+  (0 < pl)%Z /\ deserialize sha1_bytes (serialize (expected crc32 sha1_bytes [] data pl)) = Err.
+Proof. exists [1; 2; 3; 4; 5; 6], 4%Z. split; [reflexivity|]. vm_compute. reflexivity. Qed.
